@@ -165,7 +165,7 @@ def regenerate():
 
 
 HYGIENE_RE = re.compile(
-    r"\b(Admitted|admit|Axiom|Axioms|Parameter|Parameters|Conjecture|Conjectures|Abort)\b|Unset\s+Guard|"
+    r"\b(Admitted|admit|Axiom|Axioms|Parameter|Parameters|Conjecture|Conjectures)\b|Unset\s+Guard|"
     r"bypass_check|type-in-type|impredicative-set|Unset\s+Universe\s+Checking|Unset\s+Positivity|Admit\s+Obligations")
 SECTION_RE = re.compile(r"^\s*(Section|End)\s+(\w+)")
 VARHYP_RE = re.compile(r"^\s*(Variable|Variables|Hypothesis|Hypotheses|Context)\b")
